@@ -297,6 +297,14 @@ def judge(plan: dict[str, Any], events: list[list[Any]], outcome: tuple[str, Any
             if phase not in ("first_read", "pending"):
                 violation(res, "C04/protocol", f"C04/protocol:read-in-{phase}", f"read() while model phase is {phase}")
                 return
+            if phase == "first_read" and d.get("timeout") is not None and abs(d["timeout"] - T) > 1e-9:
+                # the caller's timeout (client default or per-request override) bounds the wait for the first reply
+                violation(res, "C04/timeout", f"C04/timeout:first-read-uses-{'client-default' if abs(d['timeout'] - plan['T']) < 1e-9 else 'other-value'}",
+                          f"attempt {i}: the transport was read with timeout {d['timeout']} but the effective request timeout is {T} (client {plan['T']}, override {plan.get('cfg_timeout')})")
+                return
+            if phase == "first_read" and d.get("timeout") is None:
+                violation(res, "C04/timeout", "C04/timeout:first-read-without-timeout", f"attempt {i}: the transport was read without a timeout (effective request timeout {T})")
+                return
             continue
         if kind == "read_cancelled":
             continue
